@@ -185,8 +185,8 @@ func (ig *IntervalGraph) setEdge(e graph.Edge) {
 
 	ig.nodes[fid] = from
 	ig.nodes[tid] = to
-	ig.from[fid] = map[int64]graph.Edge{tid: e}
-	ig.to[tid] = map[int64]graph.Edge{fid: e}
+	ig.from[fid][tid] = e
+	ig.to[tid][fid] = e
 }
 
 // Interval I(h) is the maximal, single entry subgraph for which h (head)
